@@ -108,13 +108,20 @@ where
     let terms: Vec<A> = if thorough() { amt::alphabet_small(tier()) } else { vec![p("1"), p("17.4"), p("-2.54"), p("0")] };
     let mults: Vec<A> = if thorough() { vec![p("1"), p("2"), p("0.5"), p("60"), p("-4"), p("1e-3"), p("-1")] } else { vec![p("1"), p("2"), p("0.5"), p("-2")] };
     let operands = amt::alphabet_small(tier());
+    // terms x multiples, plus digit-rich terms over small multiples: there the order "divide by the per value, then
+    // multiply by the term amount" the statement gives differs visibly from multiplying first when amounts have a
+    // fixed number of fractional digits
+    let mut combos: Vec<(A, A)> = terms.iter().flat_map(|&t| mults.iter().map(move |&m| (t, m))).collect();
+    for (t, m) in [("0.123456789012345678", "0.000000001"), ("0.000000025", "0.000000001"), ("-123456.789", "0.000001"), ("0.000000001", "0.123456789012345678")] {
+        combos.push((p(t), p(m)));
+    }
     let ut = bt.units[it];
     let mt = bt.um(it);
     for ip in 0..bp.n() {
         let up = bp.units[ip];
         let mp = bp.um(ip);
-        for &ta in &terms {
-            for &mu in &mults {
+        for &(ta, mu) in &combos {
+            {
                 rep.inc("states");
                 rep.count("transitions", 7);
                 let rate = Rate::<TQ, PQ>::new(ta, ut, mu, up);
